@@ -23,12 +23,33 @@ def main():
         sk = CMS.CountMinSketch(depth, width)
         use_str = sidx % 3 == 0
         universe = [f's{u}' for u in range(12)] if use_str else [int(u) for u in rng.integers(-50, 10 ** 6, 12)]
+        if sidx % 3 == 2:
+            # mixed stream: ints and strings, including an int and its own decimal rendering
+            universe = [int(u) for u in rng.integers(0, 200, 6)] + [f's{u}' for u in range(4)]
+            universe += [str(universe[0]), str(universe[1])]
         w = Counter()
         total = 0
         for step in range(int(rng.integers(1, 40))):
             x = universe[int(rng.integers(0, len(universe)))]
             delta = int(rng.choice([0, 1, 1, 1, 2, 5, 100]))
             before = sk.M.copy()
+            if step % 4 == 3:
+                # the batch interface: every occurrence in the list carries the weight
+                chunk = [universe[int(i_)] for i_ in rng.integers(0, len(universe), int(rng.integers(0, 6)))]
+                sk.batch_add(chunk, delta)
+                for y_ in chunk:
+                    w[y_] += delta
+                    total += delta
+                bwit = {'depth': depth, 'width': width, 'stream_index': sidx, 'step': step, 'batch': chunk, 'delta': delta}
+                h.record(('cms-batch', sidx, step), width > 1)
+                if any(int(sk.M[r].sum()) != total for r in range(depth)):
+                    h.fail('cms.rowsum_is_total', bwit, f'row sums {[int(sk.M[r].sum()) for r in range(depth)]} total {total}')
+                for y in universe:
+                    q = int(sk.query(y))
+                    if q < w[y] or q > total:
+                        h.fail('cms.never_below_true_weight' if q < w[y] else 'cms.never_above_total', dict(bwit, queried=y),
+                               f'estimate {q}, true weight {w[y]}, total {total}')
+                continue
             sk.add(x, delta)
             w[x] += delta
             total += delta
